@@ -26,6 +26,9 @@ printf 'latex\t%s\t%s\n' "$tex" "$out" >> '@LOG@'
 if [ ! -f "$tex" ]; then exit 3; fi
 # a tex file with an error in it: the converter fails and writes nothing
 if grep -q FAILLATEX "$tex"; then echo "! LaTeX Error" >&2; exit 1; fi
+# a converter terminated by a signal (memory limit, batch system): no output either
+if grep -q KILLLATEX "$tex"; then kill -KILL $$; fi
+if grep -q TERMLATEX "$tex"; then kill -TERM $$; fi
 {
   printf 'PDF-OF\n'
   cat "$tex"
